@@ -87,6 +87,56 @@ impl<L: LitName> Subject for AagParse<L> {
     }
 }
 
+/// parse() followed by the renumbering of what was parsed under all eight option combinations:
+/// arbitrary accepted text (cycles, undefined and doubly defined literals included) must give a
+/// circuit or a structure error, never a panic or a hang (C05 anchors aig.rs as well).
+fn renumber_all<L: LitName>(aig: &Aig<L>, emit: &mut dyn FnMut(String)) {
+    use flussab_aiger::aig::{Renumber, RenumberConfig};
+    for bits in 0..8u8 {
+        let cfg = RenumberConfig::default().trim(bits & 1 != 0).structural_hash(bits & 2 != 0).const_fold(bits & 4 != 0);
+        match Renumber::renumber_aig(cfg, aig) {
+            Ok((o, _)) => emit(format!("renumber {bits}: M={} gates={}", o.max_var_index, o.and_gates.len())),
+            Err(e) => emit(format!("renumber {bits}: {}", match e { flussab_aiger::aig::AigStructureError::LitAlreadyDefined { .. } => "already defined", flussab_aiger::aig::AigStructureError::LitNotDefined { .. } => "not defined", flussab_aiger::aig::AigStructureError::FoundCycle { .. } => "cycle" })),
+        }
+    }
+}
+
+pub struct AagRenumber<L>(pub PhantomData<fn() -> L>);
+impl<L: LitName> Subject for AagRenumber<L> {
+    fn name(&self) -> String {
+        format!("aag-renumber<{}>", L::NAME)
+    }
+    fn streaming(&self) -> bool {
+        false
+    }
+    fn run(&self, reader: DeferredReader<'_>, emit: &mut dyn FnMut(String)) -> End {
+        let p = tri!(ascii::Parser::<L>::new(LineReader::new(reader), ascii::Config::default()));
+        let aig = tri!(p.parse());
+        renumber_all(&aig, emit);
+        End::Clean
+    }
+}
+
+pub struct AigRenumber<L>(pub PhantomData<fn() -> L>);
+impl<L: LitName> Subject for AigRenumber<L> {
+    fn name(&self) -> String {
+        format!("aig-renumber<{}>", L::NAME)
+    }
+    fn streaming(&self) -> bool {
+        false
+    }
+    fn run(&self, reader: DeferredReader<'_>, emit: &mut dyn FnMut(String)) -> End {
+        let p = tri!(binary::Parser::<L>::new(LineReader::new(reader), binary::Config::default()));
+        let ordered = tri!(p.parse());
+        let aig: Aig<L> = ordered.into();
+        renumber_all(&aig, emit);
+        End::Clean
+    }
+    fn boundaries(&self, input: &[u8]) -> Vec<usize> {
+        binary_boundaries(input)
+    }
+}
+
 pub struct AagStream<L>(pub PhantomData<fn() -> L>);
 impl<L: LitName> Subject for AagStream<L> {
     fn name(&self) -> String {
@@ -439,6 +489,8 @@ macro_rules! with_lit {
 fn mk<L: LitName>(kind: &str) -> Box<dyn Subject> {
     match kind {
         "aag-parse" => Box::new(AagParse::<L>(PhantomData)),
+        "aag-renumber" => Box::new(AagRenumber::<L>(PhantomData)),
+        "aig-renumber" => Box::new(AigRenumber::<L>(PhantomData)),
         "aag-stream" => Box::new(AagStream::<L>(PhantomData)),
         "aig-parse" => Box::new(AigParse::<L>(PhantomData)),
         "aag-skip" => Box::new(AagSkip::<L>(PhantomData)),
